@@ -5,7 +5,7 @@ Require Extraction.
 Require Import ExtrOcamlBasic.
 From Coq Require Import ZArith List.
 From Cedar Require Import Base.Int64 Lang.Value Lang.Expr Impl.Authorize Impl.Like Impl.Eval
-  Impl.Decimal Impl.Duration Impl.Datetime Impl.IPAddr Impl.Fold Impl.PolicySet Impl.HashSet Generated.Tables.
+  Impl.Decimal Impl.Duration Impl.Datetime Impl.IPAddr Impl.Fold Impl.PolicySet Impl.HashSet Impl.Partial Generated.Tables.
 Extraction Language OCaml.
 Extraction "model.ml"
   Authorize.authorize
@@ -17,4 +17,5 @@ Extraction "model.ml"
   Datetime.parse_datetime Datetime.print_datetime
   IPAddr.parse_ip
   Fold.fold Fold.fold_policy Tables.fold_table
-  PolicySet.run.
+  PolicySet.run
+  Partial.partial_policy Partial.partial.
